@@ -40,6 +40,11 @@ type SpecOpts struct {
 
 // ValidateSpec loads and validates a document with a SpecValidator pinned to the given options.
 func ValidateSpec(text []byte, o SpecOpts) (out SpecOutcome) {
+	return ValidateSpecWith(text, o, strfmt.Default)
+}
+
+// ValidateSpecWith is ValidateSpec with a caller-supplied format registry.
+func ValidateSpecWith(text []byte, o SpecOpts, formats strfmt.Registry) (out SpecOutcome) {
 	defer func() {
 		if e := recover(); e != nil {
 			out.Panic = fmt.Sprint(e)
@@ -53,7 +58,7 @@ func ValidateSpec(text []byte, o SpecOpts) (out SpecOutcome) {
 	if err != nil {
 		return SpecOutcome{LoadErr: err.Error()}
 	}
-	return ValidateDoc(doc, o)
+	return ValidateDocWith(doc, o, formats)
 }
 
 // ValidateDoc validates an already loaded document.
@@ -94,6 +99,7 @@ func ValidateDocWith(doc *loads.Document, o SpecOpts, formats strfmt.Registry) (
 type SpecSession struct {
 	validators map[SpecOpts]*validate.SpecValidator
 	Count      int
+	Formats    strfmt.Registry // nil: strfmt.Default
 }
 
 // NewSpecSession creates an empty session.
@@ -118,7 +124,11 @@ func (ss *SpecSession) Validate(text []byte, o SpecOpts) (out SpecOutcome) {
 	}
 	v := ss.validators[o]
 	if v == nil {
-		v = validate.NewSpecValidator(doc.Schema(), strfmt.Default)
+		formats := ss.Formats
+		if formats == nil {
+			formats = strfmt.Default
+		}
+		v = validate.NewSpecValidator(doc.Schema(), formats)
 		v.SetContinueOnErrors(o.Continue)
 		v.Options.StrictPathParamUniqueness = o.Strict
 		ss.validators[o] = v
